@@ -85,3 +85,4 @@ segs.register(sys.modules[__name__])
 vsock.register(sys.modules[__name__])
 vsock_props.register(sys.modules[__name__])
 net.register(sys.modules[__name__])
+sock.register_late(sys.modules[__name__])
